@@ -298,7 +298,8 @@ class SinexParser(Parser):
             Data contained in lines.
         """
         # Set up for np.genfromtxt to parse the Sinex block
-        delimiter = np.diff(np.array([0] + [f.start_col for f in fields] + [81]))  # Length of each field
+        line_end = max([81] + [len(ln) for ln in lines])  # Last field runs to the end of the (longest) line
+        delimiter = np.diff(np.array([0] + [f.start_col for f in fields] + [line_end]))  # Length of each field
         names = [f.name for f in fields if f.dtype]  # Names, only fields with dtype set
         usecols = [i for i, f in enumerate(fields, start=1) if f.dtype]  # Skip 0th and fields without dtype
         dtype = [f.dtype for f in fields if f.dtype]  # Types of fields
